@@ -277,6 +277,24 @@ def rule_fork_keys(prog):
                 if c is not None and discr_switches(prog, c, STATE):
                     clos.append(c)
     res.inst("keycode-variants", variants=sorted(some))
+    if not clos:
+        # the scan goes through Layout::keycodes(), which is `states.iter().filter_map(State::keycode)`: it sees exactly the
+        # states that State::keycode answers for
+        via = [b for b in region if f.term(b)["k"] == "call" and norm_name(callee_name(f.term(b)) or "") == "kanata_keyberon::layout::Layout::keycodes"]
+        kcs = prog.fn_opt("kanata_keyberon::layout::Layout::keycodes")
+        uses_keycode = False
+        if kcs is not None:
+            for g in [kcs] + list(prog.closures_of(kcs)):
+                for b in g.reachable():
+                    blob = str(g.stmts(b)) + str(g.term(b))
+                    if "layout::State" in blob and "::keycode" in blob:
+                        uses_keycode = True
+        if via and uses_keycode:
+            res.fn(kcs)
+            for v in sorted(some):
+                res.inst("fork-sees/" + v, keycode=True, fork=True, via="Layout::keycodes")
+                res.oblige(True)
+            return res
     if len(clos) != 1:
         res.viol("shape", f.loc, "expected one State-matching closure in the Fork arm, found %d" % len(clos))
         return res
